@@ -85,12 +85,23 @@ package transaction
 //
 // Compare: date, description, then the postings pairwise, then the number of postings; two
 // transactions tie only if they agree in all of these (so equal-comparing transactions print alike).
+// sameTargets: the @performance line the journal printer writes for the two transactions is the same (none for a
+// nil list, otherwise the names of the targets in order) - what "tied transactions print alike" needs besides
+// date, description and postings.
+//@ def sameTargets(t *Transaction, t2 *Transaction) bool := (t.Targets == nil) == (t2.Targets == nil) && len(t.Targets) == len(t2.Targets)
+//@     && (forall k int :: {t.Targets[k]} 0 <= k && k < len(t.Targets) ==> t.Targets[k].name == t2.Targets[k].name)
 //@ def cmpReady(t *Transaction) bool := t != nil && (forall i int :: {t.Postings[i]} 0 <= i && i < len(t.Postings) ==> okPosting(t.Postings[i]))
+//@     && (forall i int :: {t.Targets[i]} 0 <= i && i < len(t.Targets) ==> t.Targets[i] != nil)
 //@ func Compare
 //@   requires cmpReady(t) && cmpReady(t2)
 //@   ensures [C06] [C05] 0 - 1 <= result && result <= 1
 //@   ensures [C06] [C05] @tie: result == 0 <==> (t.Date == t2.Date && t.Description == t2.Description && len(t.Postings) == len(t2.Postings)
-//@        && (forall k int :: {t.Postings[k]} 0 <= k && k < len(t.Postings) ==> postCmp(t.Postings[k], t2.Postings[k]) == 0))
+//@        && (forall k int :: {t.Postings[k]} 0 <= k && k < len(t.Postings) ==> postCmp(t.Postings[k], t2.Postings[k]) == 0) && sameTargets(t, t2))
+//@   ensures [C06] [C05] @printsalike: result == 0 ==> sameTargets(t, t2)
 //@   loop 1 invariant 0 <= i && i <= len(t.Postings) && i <= len(t2.Postings)
 //@   loop 1 invariant forall k int :: {t.Postings[k]} 0 <= k && k < i ==> postCmp(t.Postings[k], t2.Postings[k]) == 0
 //@   loop 1 decreases len(t.Postings) - i
+//@   loop 2 invariant 0 <= i && i <= len(t.Targets) && i <= len(t2.Targets) && len(t.Postings) == len(t2.Postings) && t.Date == t2.Date && t.Description == t2.Description
+//@   loop 2 invariant forall k int :: {t.Postings[k]} 0 <= k && k < len(t.Postings) ==> postCmp(t.Postings[k], t2.Postings[k]) == 0
+//@   loop 2 invariant forall k int :: {t.Targets[k]} 0 <= k && k < i ==> t.Targets[k].name == t2.Targets[k].name
+//@   loop 2 decreases len(t.Targets) - i
